@@ -617,3 +617,131 @@ Proof.
   repeat split; apply in_range_of_bounds;
     (rewrite Rabs_pos_eq by lra) || (rewrite Rabs_left by lra); lra.
 Qed.
+
+Notation rsqrt := R_sqrt.sqrt.
+(* ---------------------------------------------------------------- 6. neg / conj (exact), z / r, |z| *)
+Lemma fopp_correct (x : pfloat) : FR (- x)%float = - FR x /\ (ffinite x -> ffinite (- x)%float).
+Proof.
+  unfold FR, ffinite. rewrite opp_equiv. split; [apply B2R_Bopp | now rewrite is_finite_Bopp].
+Qed.
+
+Lemma cneg_conj_exact_lemma (z : cplx AF) :
+  FR (re (cneg z)) = - FR (re z) /\ FR (im (cneg z)) = - FR (im z) /\
+  re (conj z) = re z /\ FR (im (conj z)) = - FR (im z).
+Proof.
+  destruct z as [zr zi]. cbn [re im cneg conj].
+  change (@neg AF zr) with (- zr)%float. change (@neg AF zi) with (- zi)%float.
+  repeat split; apply fopp_correct.
+Qed.
+
+(* z / r divides each component once *)
+Lemma cdiv_r_rounding_bound_lemma (z : cplx AF) (r : AF) :
+  let a := FR (re z) in let b := FR (im z) in let s := FR r in
+  ffinite (re z) -> ffinite (im z) -> s <> 0 -> in_range (a / s) -> in_range (b / s) ->
+  exists q, cdiv_r z r = Ok q /\ cdiv_assign_r z r = Ok q /\ ffinite (re q) /\ ffinite (im q) /\
+  Rabs (FR (re q) - a / s) <= u64 * Rabs (a / s) /\ Rabs (FR (im q) - b / s) <= u64 * Rabs (b / s).
+Proof.
+  intros a b s Fa Fb Ns [U1 O1] [U2 O2]. destruct z as [zr zi]. cbn [re im] in *.
+  exists (@mkC AF (zr / r)%float (zi / r)%float). split; [reflexivity|]. split; [reflexivity|]. cbn [re im].
+  destruct (fdiv_correct zr r Fa Ns O1) as [E1 F1]. destruct (fdiv_correct zi r Fb Ns O2) as [E2 F2].
+  fold a b s in E1, E2. rewrite E1, E2. repeat split; try assumption; apply rnd64_rel; assumption.
+Qed.
+
+(* sqrt is 1-Lipschitz in relative terms: |sqrt x - sqrt y| <= |x - y| / sqrt y *)
+Lemma sqrt_perturb (g S S1 : R) : 0 <= g -> 0 < S -> Rabs (S1 - S) <= g * S -> 0 <= S1 ->
+  Rabs (rsqrt S1 - rsqrt S) <= g * rsqrt S.
+Proof.
+  intros G PS H P1.
+  assert (Q : 0 < rsqrt S) by (now apply sqrt_lt_R0).
+  assert (Q1 : 0 <= rsqrt S1) by apply sqrt_pos.
+  assert (M : (rsqrt S1 - rsqrt S) * (rsqrt S1 + rsqrt S) = S1 - S).
+  { replace ((rsqrt S1 - rsqrt S) * (rsqrt S1 + rsqrt S)) with (rsqrt S1 * rsqrt S1 - rsqrt S * rsqrt S) by ring.
+    rewrite !sqrt_sqrt by lra. reflexivity. }
+  assert (E : rsqrt S1 - rsqrt S = (S1 - S) * / (rsqrt S1 + rsqrt S)).
+  { rewrite <- M. field. lra. }
+  rewrite E, Rabs_mult. rewrite (Rabs_pos_eq (/ _)) by (apply Rlt_le, Rinv_0_lt_compat; lra).
+  assert (I : / (rsqrt S1 + rsqrt S) <= / rsqrt S) by (apply Rinv_le_contravar; lra).
+  assert (I0 : 0 < / (rsqrt S1 + rsqrt S)) by (apply Rinv_0_lt_compat; lra).
+  eapply Rle_trans; [apply Rmult_le_compat; [apply Rabs_pos | lra | exact H | exact I]|].
+  replace (g * S * / rsqrt S) with (g * (rsqrt S * rsqrt S) * / rsqrt S) by (now rewrite sqrt_sqrt by lra).
+  right. field. lra.
+Qed.
+
+(* |z| = fl(sqrt(fl(fl(a*a) + fl(b*b)))): relative error g + u (1 + g), g = 2u + u^2  (about 3u) *)
+Lemma cabs_rounding_bound_lemma (z : cplx AF) :
+  let a := FR (re z) in let b := FR (im z) in
+  ffinite (re z) -> ffinite (im z) -> 0 < a * a + b * b ->
+  in_range (a * a) -> in_range (b * b) -> in_range (rnd64 (a * a) + rnd64 (b * b)) ->
+  no_underflow (rsqrt (rnd64 (rnd64 (a * a) + rnd64 (b * b)))) ->
+  Rabs (FR (@cabs SAF z) - rsqrt (a * a + b * b)) <=
+    ((2 * u64 + u64 * u64) + u64 * (1 + (2 * u64 + u64 * u64))) * rsqrt (a * a + b * b).
+Proof.
+  intros a b Fa Fb PS R1 R2 R3 U4.
+  destruct (abs_sqr_cmul_r_rounding_bound_lemma z (re z)) as [K _]; try assumption.
+  fold a b in K. destruct (K R1 R2 R3) as [_ E]. clear K.
+  set (g := 2 * u64 + u64 * u64) in *. set (S := a * a + b * b) in *.
+  assert (G : 0 <= g) by (unfold g; pose proof u64_nonneg; assert (0 <= u64 * u64) by (now apply Rmult_le_pos); lra).
+  change (@cabs SAF z) with (Coq.Floats.PrimFloat.sqrt (abs_sqr z)).
+  unfold FR at 1. rewrite sqrt_equiv.
+  destruct (Bsqrt_correct prec emax Hprec Hmax mode_NE (Prim2B (abs_sqr z))) as [E1 _].
+  change (round radix2 (fexp prec emax) (round_mode mode_NE)) with rnd64 in E1.
+  rewrite E1. fold (FR (abs_sqr z)).
+  set (S1 := FR (abs_sqr z)) in *.
+  assert (ES1 : S1 = rnd64 (rnd64 (a * a) + rnd64 (b * b))).
+  { unfold S1. destruct z as [zr zi]. cbn [re im] in *.
+    change (abs_sqr (mkC zr zi)) with (zr * zr + zi * zi)%float.
+    destruct R1 as [_ O1], R2 as [_ O2], R3 as [_ O3].
+    destruct (fmul_correct zr zr O1) as [M1 F1]. specialize (F1 Fa Fa).
+    destruct (fmul_correct zi zi O2) as [M2 F2]. specialize (F2 Fb Fb). fold a b in M1, M2.
+    assert (O3' : no_overflow (FR (zr * zr)%float + FR (zi * zi)%float)) by (now rewrite M1, M2).
+    destruct (fadd_correct _ _ F1 F2 O3') as [M3 _]. now rewrite M3, M1, M2. }
+  assert (L : (1 - g) * S <= S1) by (apply Rabs_le_inv in E; lra).
+  assert (P1 : 0 <= S1).
+  { pose proof u64_small as Sm. fold g in Sm. assert (0 <= (1 - g) * S) by (apply Rmult_le_pos; lra). lra. }
+  pose proof (sqrt_perturb g S S1 G PS E P1) as Q.
+  rewrite <- ES1 in U4. pose proof (rnd64_rel _ U4) as Rq.
+  assert (A : Rabs (rsqrt S1) <= (1 + g) * rsqrt S).
+  { replace (rsqrt S1) with ((rsqrt S1 - rsqrt S) + rsqrt S) by ring.
+    eapply Rle_trans; [apply Rabs_triang|]. rewrite (Rabs_pos_eq (rsqrt S)) by apply sqrt_pos. lra. }
+  replace (rnd64 (rsqrt S1) - rsqrt S) with ((rnd64 (rsqrt S1) - rsqrt S1) + (rsqrt S1 - rsqrt S)) by ring.
+  eapply Rle_trans; [apply Rabs_triang|].
+  assert (C : u64 * Rabs (rsqrt S1) <= u64 * ((1 + g) * rsqrt S)) by (apply Rmult_le_compat_l; [apply u64_nonneg | exact A]).
+  lra.
+Qed.
+
+Lemma cdiv_r_cabs_rounding_bound_nonvacuous_lemma :
+  let z := @mkC AF 1.5%float 2%float in let r : AF := (-0.5)%float in
+  let a := FR (re z) in let b := FR (im z) in let s := FR r in
+  ffinite (re z) /\ ffinite (im z) /\ s <> 0 /\ in_range (a / s) /\ in_range (b / s) /\
+  0 < a * a + b * b /\ in_range (a * a) /\ in_range (b * b) /\ in_range (rnd64 (a * a) + rnd64 (b * b)) /\
+  no_underflow (rsqrt (rnd64 (rnd64 (a * a) + rnd64 (b * b)))).
+Proof.
+  cbn [re im].
+  assert (Ea : FR 1.5%float = 1.5) by fr_eval. assert (Eb : FR 2%float = 2) by fr_eval.
+  assert (Es : FR (-0.5)%float = -0.5) by fr_eval.
+  rewrite Ea, Eb, Es.
+  assert (B0 : bpow radix2 (-1022) <= bpow radix2 0) by (apply bpow_le; lia).
+  assert (B1 : bpow radix2 4 <= bpow radix2 1023) by (apply bpow_le; lia).
+  assert (P0 : bpow radix2 0 = 1) by reflexivity.
+  assert (P1 : bpow radix2 1 = 2) by reflexivity.
+  assert (P2 : bpow radix2 2 = 4) by (cbn; lra).
+  assert (P3 : bpow radix2 3 = 8) by (cbn; lra).
+  assert (P4 : bpow radix2 4 = 16) by (cbn; lra).
+  assert (Raa : 2 <= rnd64 (1.5 * 1.5) <= 4).
+  { rewrite <- P1, <- P2. apply rnd64_between; try lia. rewrite P1, P2. lra. }
+  assert (Rbb : 4 <= rnd64 (2 * 2) <= 4).
+  { rewrite <- P2. apply rnd64_between; try lia. rewrite P2. lra. }
+  assert (RS : 4 <= rnd64 (rnd64 (1.5 * 1.5) + rnd64 (2 * 2)) <= 8).
+  { rewrite <- P2, <- P3. apply rnd64_between; try lia. rewrite P2, P3. lra. }
+  assert (Q3 : 1.5 / -0.5 = -3) by lra. assert (Q4 : 2 / -0.5 = -4) by lra.
+  rewrite Q3, Q4.
+  assert (I1 : in_range (-3)) by (apply in_range_of_bounds; rewrite Rabs_left by lra; lra).
+  assert (I2 : in_range (-4)) by (apply in_range_of_bounds; rewrite Rabs_left by lra; lra).
+  assert (I3 : in_range (1.5 * 1.5)) by (apply in_range_of_bounds; rewrite Rabs_pos_eq by lra; lra).
+  assert (I4 : in_range (2 * 2)) by (apply in_range_of_bounds; rewrite Rabs_pos_eq by lra; lra).
+  assert (I5 : in_range (rnd64 (1.5 * 1.5) + rnd64 (2 * 2))) by (apply in_range_of_bounds; rewrite Rabs_pos_eq by lra; lra).
+  assert (I6 : no_underflow (rsqrt (rnd64 (rnd64 (1.5 * 1.5) + rnd64 (2 * 2))))).
+  { right. rewrite Rabs_pos_eq by apply sqrt_pos.
+    apply Rle_trans with 1; [lra|]. rewrite <- sqrt_1. apply sqrt_le_1_alt. lra. }
+  repeat (split; [first [assumption | apply ffinite_SF; reflexivity | lra]|]). assumption.
+Qed.
